@@ -11,6 +11,7 @@ import json
 import os
 import re
 import shutil
+import subprocess
 import time
 from concurrent.futures import ThreadPoolExecutor
 
@@ -55,8 +56,8 @@ def variant(binary):
     a far-future partial-signature message and a prepare for slot 2^62+Base on a fresh validator."""
     os.makedirs(WD, exist_ok=True)
     outp = os.path.join(WD, "probe.json")
-    vlib.run_driver(binary, ["-mode", "probe", "-out", outp], timeout=600)
-    pr = json.load(open(outp))["samples"][0]
+    res, _ = _driver(binary, ["-mode", "probe", "-out", outp], timeout=600)
+    pr = res["samples"][0]
     pw = pr["partial_far_future"]["class"] != "accept"
     og = pr["prepare_slot_2_62"]["class"] != "accept"
     return dict(partial_window=pw, overflow_guard=og, probe=pr)
@@ -91,18 +92,43 @@ def _hash_inputs(binary, tier, seed, pw):
 
 
 def _driver(binary, args, timeout=3000, env=None):
+    """Run the driver.  Whatever it does (dies, hangs, writes nothing) ends in a MachineryError with the tail of its output,
+    never in a traceback: stale outputs of an earlier run are removed first, so a missing file is seen as missing."""
     out = args[args.index("-out") + 1]
-    vlib.run_driver(binary, args, timeout=timeout, env=env)
-    res = json.load(open(out))
+    stale = [out, out + ".repro.ndjson"] + ([args[args.index("-trace") + 1]] if "-trace" in args else [])
+    for f in stale:
+        if os.path.exists(f):
+            os.remove(f)
+    what = "driver %s %s" % (os.path.basename(binary), " ".join(args))
+    try:
+        stdout, _ = vlib.run_driver(binary, args, timeout=timeout, env=env)
+    except subprocess.TimeoutExpired as e:
+        tail = e.stdout if isinstance(e.stdout, str) else (e.stdout or b"").decode("utf-8", "replace")
+        raise vlib.MachineryError("%s did not finish within %d s (killed); its output ended with:\n%s" % (what, timeout, tail[-3000:]))
+    if not os.path.exists(out):
+        raise vlib.MachineryError("%s exited 0 without writing its result file %s; its output ended with:\n%s" % (what, out, stdout[-3000:]))
+    try:
+        res = json.load(open(out))
+    except ValueError as e:
+        raise vlib.MachineryError("%s wrote an unreadable result file %s (%s); its output ended with:\n%s" % (what, out, e, stdout[-3000:]))
+    res["_output_tail"] = stdout[-3000:]
     repros = vlib.read_ndjson(out + ".repro.ndjson") if os.path.exists(out + ".repro.ndjson") else []
     return res, repros
+
+
+def _hung(res):
+    return any(v["signature"] == "validator-hang" for v in res.get("violations", []))
 
 
 def _chunks(trace_path, max_events):
     """Split a sweep trace at 'R' events into chunks of at most ~max_events lines."""
     chunks, cur = [], []
+    if not os.path.exists(trace_path):
+        return chunks
     with open(trace_path) as f:
         for ln in f:
+            if not ln.endswith("\n"):  # a line cut short (the driver ended abnormally): not an event
+                break
             if ln.startswith('{"e":"R"') and len(cur) >= max_events:
                 chunks.append(cur)
                 cur = []
@@ -178,6 +204,11 @@ def _family(fam, tier, seed, pw, binary, pool):
     out["violations"] += [(v, repros, "sweep:" + name) for v in res["violations"]]
     out["sigcounts"] = {k[4:]: v for k, v in res["counters"].items() if k.startswith("sig:")}
     # 3. the recorded calls are validated by TLC against the spec (in chunks, in parallel)
+    if not os.path.exists(tr) and not _hung(res):
+        raise vlib.MachineryError("the sweep of family %s ended without a trace file and without a reported hang; the driver's output ended with:\n%s"
+                                  % (name, res.get("_output_tail", "")))
+    if _hung(res):
+        out["notes"].append("the sweep was cut short: a validator object stopped returning (violation validator-hang); what was recorded until then is validated")
     chunks = _chunks(tr, 30000 if tier == "quick" else 60000)
     futs = [pool.submit(_validate_trace, cfg, pw, alphabet_json, ch, "mvt-%s-%d" % (name, k)) for k, ch in enumerate(chunks)]
     # 4. byte-level perturbation of the concretised messages (exploration), validator + decoders
@@ -194,7 +225,7 @@ def _family(fam, tier, seed, pw, binary, pool):
         if k.startswith("sig:"):
             out["sigcounts"][k[4:]] = out["sigcounts"].get(k[4:], 0) + v
     tv = [f.result() for f in futs]
-    if name == "core":
+    if name == "core" and chunks:
         out["selftest"] = _selftest(cfg, pw, alphabet_json, chunks[0][:400])
     out["trace"] = dict(chunks=len(tv), events=sum(t["events"] for t in tv), consumed=sum(t["consumed"] for t in tv),
                         mismatches=sum(len(t["mismatches"]) for t in tv), complete=all(t["complete"] for t in tv),
@@ -202,7 +233,7 @@ def _family(fam, tier, seed, pw, binary, pool):
     log("[msgval] " + _el() + " %-8s sweep: %d prefixes, %d calls on the real validator; trace validation: %d/%d events, %d mismatches; bytes: %d validator + %d decoder inputs" %
         (name, out["sweep"]["prefixes"], out["sweep"]["calls"], out["trace"]["consumed"], out["trace"]["events"], out["trace"]["mismatches"],
          out["bytes"]["validator_inputs"], out["bytes"]["decoder_inputs"] + out["bytes"]["record_inputs"] + out["bytes"]["subnet_inputs"]))
-    out["sample"] = [ln.strip() for ln in open(tr).readlines()[2:6]]
+    out["sample"] = [ln.strip() for ln in (chunks[0] if chunks else [])[2:6]]
     out["alpha_sample"] = json.loads(alphabet_json)["alpha"][:2]
     return out
 
@@ -410,7 +441,7 @@ def _run(tier, seed, binary, pw):
                                             "-seed", str(seed), "-rounds", "300", "-trace", trc, "-out", os.path.join(wdc, "conc.json")],
                                   env={"GORACE": "halt_on_error=0 exitcode=0 log_path=" + racelog})
             races = len(glob.glob(racelog + "*"))
-            lines = open(trc).readlines()
+            lines = [ln for ln in (open(trc).readlines() if os.path.exists(trc) else []) if ln.endswith("\n")]
             cfgname = "MsgValidation_%s_%s.cfg" % (fam["name"], tier)
             tv = _validate_trace(cfgname, pw, open(os.path.join(wdc, "alphabet.json")).read(), lines, "mvc-" + fam["name"]) if lines else dict(events=0, consumed=0, mismatches=[], complete=True, generated=0)
             conc.append(dict(family=fam["name"], batches=rc["behaviours"], calls=rc["steps"], recorded=len(lines), mismatches=len(tv["mismatches"]),
@@ -480,7 +511,10 @@ def finish(prop, tier, seed, res, t0):
                 "model-generated messages fed to the validator and to DecodeSignedSSVMessage, DecodeNetworkMsg, queue.DecodeSSVMessage, "
                 "NodeInfo/SignedNodeInfo Consume+UnmarshalRecord, NodeMetadata.Decode, Subnets.FromString" % bytes_tot)
         assumptions = ["arbitrary byte strings are only explored by seeded perturbation of model-generated messages (DESIGN.md section 7): the byte half is exploration",
-                       "allocation ceiling 96 MiB per call, hang = a call slower than 2 s that is that slow again three times in a row when repeated (a stall of a loaded machine is not), or no return within 30 s in bulk mode",
+                       "allocation ceiling 96 MiB per call; hang = a call that is slower than 2 s or has not returned after 10 s AND fails the same way three more times in a row "
+                       "when repeated on the same validator object (5 s each; a stall of a loaded machine passes a repeat): an input the validator loops on and a "
+                       "validator left wedged by an EARLIER call both fail every repeat; the replay file is the call history of that object, cut down to "
+                       "(call before + hanging call) when that hangs again on a fresh validator; direct calls of ValidateSSVMessage: 60 s watchdog",
                        "messages larger than a few KiB (8 MiB pubsub limit) are not generated"]
     else:
         rule = ("every (accepted prefix, message class, time point) of the alphabets up to the sweep depth on the real validator; the monitor evaluates "
